@@ -146,6 +146,7 @@ def pool_check(ctx):
     cov['compared']['concurrent recorded events validated by TLC'] = st['events']
     cov['samples'] += st['samples'][:1]
     if 'DATA RACE' in racelog:
+        os.makedirs(core.EVID, exist_ok=True)
         p = os.path.join(core.EVID, 'race-report-C14.txt')
         open(p, 'w').write(racelog)
         viol.append(dict(property='C14', kind='data race reported by the Go race detector', version='', input='8 goroutines driving all exported functions of all four packages',
@@ -160,6 +161,7 @@ def pool_check(ctx):
         viol += sr['violations']
         cov['compared']['read-only calls on shared objects' + ('' if exe is None else ' (race build)')] = sr['evaluations']
         if 'DATA RACE' in sr.get('_stderr', ''):
+            os.makedirs(core.EVID, exist_ok=True)
             pth = os.path.join(core.EVID, 'race-report-C14.txt')
             open(pth, 'w').write(sr['_stderr'])
             viol.append(dict(property='C14', kind='data race reported by the Go race detector', version='', input='every CPU reading the same objects through Get / Vector / scores / Nomenclature',
@@ -171,6 +173,7 @@ def pool_check(ctx):
         viol += sh['violations']
         cov['compared'][label] = sh['evaluations']
         if 'DATA RACE' in sh.get('_stderr', ''):
+            os.makedirs(core.EVID, exist_ok=True)
             p = os.path.join(core.EVID, 'race-report-C14.txt')
             open(p, 'w').write(sh['_stderr'])
             viol.append(dict(property='C14', kind='data race reported by the Go race detector', version='', input='every CPU parsing valid and failing vectors and re-reading the results it holds',
